@@ -237,9 +237,8 @@ def macDec (ph : FHDR) (pp : Option Byte) (pf : List Item) (data : Bytes) : Outc
     else do
       let h ← FHDR.dec ph (data.take (7 + fol))
       let fPort : Option Byte := if n > 7 + fol then some (data.getD (7 + fol) 0) else pp
-      if n > 7 + fol + 1 then
-        if fPort == some 0 ∧ fol > 0 then err
-        else ok (.mac h fPort [.data (data.drop (7 + fol + 1))])
+      if n > 7 + fol ∧ data.getD (7 + fol) 0 == 0 ∧ fol > 0 then err
+      else if n > 7 + fol + 1 then ok (.mac h fPort [.data (data.drop (7 + fol + 1))])
       else ok (.mac h fPort pf)
 
 structure PHY where
